@@ -111,6 +111,10 @@ class Layout:
             lines += [pad + 'Summary line %s.' % self.mark(), '']
             if rng.random() < 0.5:
                 lines += [pad + 'More prose.', pad + 'Even more.', '']
+            if rng.random() < 0.3:
+                # prose that holds characters which str.splitlines() treats as line ends but the file does not: a page break on a
+                # line of its own, a separator pasted into a sentence, a next-line character at the end of one
+                lines += [pad + rng.choice(['\x0c', 'Part two.\x0c', 'pasted \u2028 text', 'ends with nel\x85', 'a \x1c b \x1d c', '\x0b'])] + ['']
         if style == 'skipped_first':
             hdr = rng.choice(SKIPHDR)
             lines += [pad + hdr, pad + '    >>> print("skipped %s")' % self.mark(), pad + '    skipped', pad + '    >>> 1 + 1', pad + '    2', '']
